@@ -751,3 +751,139 @@ def result_fields(prog, f, ex=None):
                             fields[fld] = val
         out.append(fields)
     return out
+
+
+# ---------------------------------------------------------------------------------------------------------------------
+# path-sensitive constant propagation over the acyclic statement structure of a function
+
+def _stored_in(stmts):
+    out = set()
+    for s in stmts:
+        for n in ast.walk(s):
+            if isinstance(n, ast.Name) and isinstance(n.ctx, (ast.Store, ast.Del)):
+                out.add(n.id)
+    return out
+
+
+def _fold(e):
+    """constant folding of `+` on literals (strings, numbers) and of conditional expressions with a literal test"""
+    class F(ast.NodeTransformer):
+        def visit_BinOp(self, n):
+            self.generic_visit(n)
+            if isinstance(n.op, ast.Add) and isinstance(n.left, ast.Constant) and isinstance(n.right, ast.Constant) \
+                    and type(n.left.value) is type(n.right.value) and isinstance(n.left.value, (str, int, float)):
+                return ast.Constant(value=n.left.value + n.right.value)
+            return n
+    return F().visit(e)
+
+
+def _split_ifexp(e):
+    """[(expr without top-level conditional expressions, [(test, pol)])]"""
+    if isinstance(e, ast.IfExp):
+        out = []
+        for v, pol in ((e.body, True), (e.orelse, False)):
+            for v2, g in _split_ifexp(v):
+                out.append((v2, [(e.test, pol)] + g))
+        return out
+    if isinstance(e, ast.BinOp):
+        out = []
+        for l, gl in _split_ifexp(e.left):
+            for r, gr in _split_ifexp(e.right):
+                out.append((ast.BinOp(left=l, op=e.op, right=r), gl + gr))
+        return out
+    return [(e, [])]
+
+
+def path_values(f, want='return', limit=256):
+    """Enumerate the paths through the if-structure of f with an environment of def-use substituted, constant-folded values.
+    want='return': [(conds, returned expr)] for every value-returning path; want=<name>: [(conds, value of the local)] at every
+    normal exit (fall-through or return).  conds = [(literal text, polarity)] with the path's earlier bindings substituted in.
+    Loops, try and with blocks are not entered: the names they store become unknown (`__top__`) - sound, not precise.
+    Raising paths are dropped.  More than `limit` paths -> Inconclusive."""
+    # names whose values matter: the target and, transitively, whatever its assignments read
+    relevant = None
+    if want != 'return':
+        relevant = {want}
+        changed = True
+        while changed:
+            changed = False
+            for n in all_nodes(f):
+                tg = None
+                if isinstance(n, ast.Assign):
+                    tg = [x for t in n.targets for x in ast.walk(t) if isinstance(x, ast.Name)]
+                elif isinstance(n, ast.AugAssign) and isinstance(n.target, ast.Name):
+                    tg = [n.target]
+                if tg and any(t.id in relevant for t in tg):
+                    for x in ast.walk(n.value):
+                        if isinstance(x, ast.Name) and x.id not in relevant:
+                            relevant.add(x.id)
+                            changed = True
+    results = []
+
+    def lits(test, pol, env):
+        d = literal_dnf(substitute(test, env), pol)
+        if len(d) == 1:
+            return [(u(a), pl) for a, pl in d[0]]
+        return [('(%s)' % u(substitute(test, env)), pol)]
+
+    def matters(stmt):
+        if relevant is None:
+            return True
+        if any(isinstance(n, (ast.Return, ast.Raise)) for n in ast.walk(stmt)):
+            return True
+        return bool(_stored_in([stmt]) & relevant)
+
+    def run(stmts, env, conds, k):
+        """k: continuation taking (env, conds)"""
+        if len(results) > limit:
+            raise Inconclusive('too many paths through %s' % f.qualname)
+        if not stmts:
+            return k(env, conds)
+        s, rest = stmts[0], stmts[1:]
+        if isinstance(s, ast.Return):
+            if want == 'return':
+                if s.value is not None:
+                    for v, g in _split_ifexp(substitute(s.value, env)):
+                        results.append((conds + [x for t, p in g for x in lits(t, p, {})], _fold(v)))
+            elif want in env:
+                results.append((conds, env[want]))
+            return
+        if isinstance(s, ast.Raise):
+            return
+        if isinstance(s, ast.If):
+            if not matters(s):
+                return run(rest, env, conds, k)
+            run(s.body + rest, dict(env), conds + lits(s.test, True, env), k)
+            run(s.orelse + rest, dict(env), conds + lits(s.test, False, env), k)
+            return
+        if isinstance(s, ast.Assign) and len(s.targets) == 1 and isinstance(s.targets[0], ast.Name):
+            alts = _split_ifexp(substitute(s.value, env))
+            if len(alts) == 1 or not matters(s):
+                env = dict(env)
+                env[s.targets[0].id] = _fold(substitute(s.value, env))
+                return run(rest, env, conds, k)
+            for v, g in alts:
+                e2 = dict(env)
+                e2[s.targets[0].id] = _fold(v)
+                run(rest, e2, conds + [x for t, p in g for x in lits(t, p, {})], k)
+            return
+        if isinstance(s, ast.AugAssign) and isinstance(s.target, ast.Name):
+            cur = env.get(s.target.id, ast.Name(id=s.target.id, ctx=ast.Load()))
+            env = dict(env)
+            env[s.target.id] = _fold(ast.BinOp(left=cur, op=s.op, right=substitute(s.value, env)))
+            return run(rest, env, conds, k)
+        # anything else: the names it stores become unknown
+        st = _stored_in([s])
+        if st:
+            env = dict(env)
+            for n_ in st:
+                env[n_] = mk('__top__', ast.Constant(value=n_))
+        if any(isinstance(n, ast.Return) for n in ast.walk(s)) and not isinstance(s, (ast.FunctionDef, ast.ClassDef)):
+            raise Inconclusive('a return inside a loop/try/with of %s' % f.qualname)
+        return run(rest, env, conds, k)
+
+    def at_end(env, conds):
+        if want != 'return':
+            results.append((conds, env.get(want, ast.Name(id=want, ctx=ast.Load()))))
+    run(list(f.node.body), {}, [], at_end)
+    return results
